@@ -562,6 +562,11 @@ def is_short_string_literals(spelling):
     other = [t for t in toks if t.type not in (tokenize.STRING, tokenize.NEWLINE, tokenize.NL, tokenize.ENDMARKER)]
     if other or not strings:
         return False
+    rest = spelling
+    for t in strings:
+        rest = rest.replace(t.string, " ", 1)
+    if rest.strip(" ") != "":
+        return False  # something between the literals (a backslash line continuation): Python syntax, not template literal syntax
     return all(t.string[0] in "'\"" and not t.string.startswith(("'''", '"""')) for t in strings)
 
 
